@@ -15,6 +15,7 @@ TAGS="verif${2:+,$2}"
 KEY=$(echo -n "$REPO" | md5sum | cut -c1-10)
 ID="$B/instr.d/$KEY"
 MOD="$V/sim"
+SRC="${VERIF_SIMSRC:-$V/sim}" # a frozen copy of the simulator sources (seedsweep.sh), only with VERIF_REPO
 (
   flock 9
   # cooperative yield points in a scratch copy of storage.go (structural, see instr/main.go)
@@ -36,8 +37,8 @@ PY
   else
     # a module directory of its own whose go.mod points at the other checkout
     mkdir -p "$B/mods/$KEY"
-    rsync -a --delete --exclude go.mod --exclude go.sum "$V/sim/" "$B/mods/$KEY/"
-    sed "s|=> /repo\$|=> $REPO|" "$V/sim/go.mod" > "$B/mods/$KEY/go.mod"
+    rsync -a --delete --exclude go.mod --exclude go.sum "$SRC/" "$B/mods/$KEY/"
+    sed "s|=> /repo\$|=> $REPO|" "$SRC/go.mod" > "$B/mods/$KEY/go.mod"
     cp -f "$REPO/go.sum" "$B/mods/$KEY/go.sum"
   fi
 ) 9>"$B/build.lock"
